@@ -59,6 +59,8 @@ void *nondet_ptr(void);
 			(name)[v_i_] = nondet_char();                        \
 		(name)[(n)] = 0;                                             \
 	} while (0)
+/* element `idx` of an array of strings (the replay key is built from the run-time index) */
+#define V_FILL_STR_AT(base, idx, n) V_FILL_STR((base)[idx], n)
 
 #else /* native replay */
 #define V_XSTR_(x) #x
@@ -168,6 +170,12 @@ extern void *__asan_region_is_poisoned(void *beg, size_t size);
 #define V_SET_INT(name) ((name) = (int)v_get(V_XSTR(name)))
 #define V_IN_STR(name, n) char name[(n) + 1]; v_fill(V_XSTR(name), name, (n))
 #define V_FILL_STR(name, n) v_fill(V_XSTR(name), name, (n))
+#define V_FILL_STR_AT(base, idx, n)                                          \
+	do {                                                                 \
+		char v_key_[96];                                             \
+		snprintf(v_key_, sizeof(v_key_), "%s[%d]", V_XSTR(base), (int)(idx)); \
+		v_fill(v_key_, (base)[idx], (n));                            \
+	} while (0)
 
 #endif
 
